@@ -56,6 +56,15 @@ def gen_harness(ext, path):
     parts.append('\nvoid h_dataToBool(void) {\n  int v = nondet_int();\n  wit_v1 = v; wit_v2 = 0;\n  bool b = pml_dataToBool(v);\n'
                  '  __CPROVER_assert(0, "CANARY returns");\n'
                  '  __CPROVER_assert(b == (v != 0), "O_value: dataToBool of an integer-valued operand is true exactly for non-zero values (C truth value)");\n}\n')
+    for g in ext.get('index_guards', []):
+        parts.append('\nvoid h_index_%(f)s(void) {\n  int index = nondet_int(), size = nondet_int();\n  wit_v1 = index; wit_v2 = size;\n  verif_thrown = 0; verif_used = 0;\n'
+                     '  idx_%(f)s(index, size);\n  __CPROVER_assert(0, "CANARY returns");\n'
+                     '  __CPROVER_assert(verif_thrown == !(index >= 0 && index < size), "O_index: an execution error is raised exactly for an index outside the declared array (negative or >= size)");\n'
+                     '  __CPROVER_assert(verif_thrown || verif_used, "O_index: an index inside the array reaches the element access");\n}\n' % {'f': g['function']})
+        entries.append(('h_index_%s' % g['function'], 'INDEX_' + g['function'], 2))
+    parts.append('\nunsigned long nondet_ulong(void);\nunsigned long wit_n, wit_idx;\nvoid h_data_subscript(void) {\n  size_t index = nondet_ulong();\n  verif_n = nondet_ulong();\n  verif_deref = 0;\n'
+                 '  wit_n = verif_n; wit_idx = index;\n  data_subscript(index);\n  __CPROVER_assert(0, "CANARY returns");\n'
+                 '  __CPROVER_assert(verif_deref, "O_elem: Data::operator[](size_t) returns an element");\n}\n')
     parts.append('\nvoid h_arms_present(void) {\n  __CPROVER_assert(0, "CANARY returns");\n')
     for t in pml_extract.OPS:
         parts.append('  __CPROVER_assert(%d, "O_present: evaluateExpr has an arm for operator token %s (\'%s\') - otherwise a well-typed expression is rejected as not implemented");\n'
@@ -161,6 +170,68 @@ def native_replay(tok, n, a, b, wd):
     return (rc != 0), text
 
 
+DOC_IDX = '''<?xml version="1.0" encoding="UTF-8"?>
+<scxml xmlns="http://www.w3.org/2005/07/scxml" initial="s0" datamodel="promela" version="1.0">
+  <datamodel>
+    <data id="arr" type="int[%(size)d]"/>
+    <data id="i" type="int" expr="0"/>
+  </datamodel>
+  <state id="s0">
+    <onentry>
+      %(setup)s
+      %(access)s
+      <raise event="done"/>
+    </onentry>
+    <transition event="error.execution" target="%(on_error)s"/>
+    <transition event="done" %(cond)s target="%(on_value)s"/>
+    <transition event="*" target="fail"/>
+  </state>
+  <final id="pass"/>
+  <final id="fail"/>
+</scxml>
+'''
+
+
+def native_replay_index(fn, index, size, wd, uninitialised=False):
+    """array element access arr[i] (read: getVariable, write: setVariable) in the REAL promela datamodel with the witness
+    index; the declared size is clamped to 1..8 (only whether the index is inside matters).  Expected: error.execution
+    exactly for an index outside the array.  The run is memory- and time-limited: an unbounded allocation or a hang counts
+    as reproduced."""
+    exe, err = build_native()
+    if not exe:
+        return False, 'cannot build test-state-pass: ' + err
+    sz = min(max(size, 1), 8)
+    inside = 0 <= index < size
+    if inside:
+        index = min(index, sz - 1)
+    elif index >= 0:
+        index = sz + min(index - size, 3) if index >= size else index
+    if index >= 0:
+        setup = '<assign location="i" expr="%d"/>' % index
+    elif index == -2147483648:
+        setup = '<assign location="i" expr="0 - 2147483647"/><assign location="i" expr="i - 1"/>'
+    else:
+        setup = '<assign location="i" expr="0 - %d"/>' % (-index)
+    if fn == 'getVariable':
+        access, cond = '<assign location="i" expr="arr[i]"/>', ''
+    else:
+        access, cond = '<assign location="arr[i]" expr="5"/>', ''
+    doc = (DOC_IDX if uninitialised else DOC_IDX.replace('<data id="arr" type="int[%(size)d]"/>', '<data id="arr" type="int[%(size)d]">[0,0,0,0,0,0,0,0]</data>')) % {'size': sz, 'setup': setup, 'access': access, 'cond': cond,
+                     'on_error': 'fail' if inside else 'pass', 'on_value': 'pass' if inside else 'fail'}
+    os.makedirs(wd, exist_ok=True)
+    path = os.path.join(wd, 'replay_index_%s.scxml' % fn)
+    open(path, 'w').write(doc)
+    try:
+        p = subprocess.run(['bash', '-c', 'ulimit -v 3000000; exec "$0" "$1"', exe, path], capture_output=True, text=True, timeout=120, errors='replace')
+        rc = p.returncode
+        tail = (p.stdout + p.stderr).strip().splitlines()[-3:]
+    except subprocess.TimeoutExpired:
+        rc, tail = 'timeout', []
+    text = 'document %s: %s of arr[%d] with int arr[%d]; an execution error is %sexpected; test-state-pass (3 GB address-space limit) exit=%s %s' % (
+        path, 'read' if fn == 'getVariable' else 'write', index, sz, '' if not inside else 'not ', rc, ' / '.join(tail)[-300:])
+    return (rc != 0), text
+
+
 def witness(trace):
     w = {}
     for st in trace or []:
@@ -204,7 +275,8 @@ def run(tier):
         'pmlarms: operands are integer-valued (what dataToInt(evaluateExpr(operand)) returned); the string-comparison branch of PML_EQ is dropped',
         'pmlarms: the textually first *opIter++ of an arm yields the LEFT operand. For arms that fetch both operands in ONE expression (listed under arms_whose_operand_order_is_left_to_the_compiler) C++ leaves the order of the two overloaded operator++ calls unspecified; gcc evaluates them left to right in this build. Detected syntactically by the extractor, not proved',
         'pmlarms: machine arithmetic - two\'s-complement wrap-around of + - * and unary minus is taken as defined; shift counts outside 0..31 are left unspecified',
-        'pmlarms: NOT covered - precedence/associativity (bison grammar), variable storage (getVariable/setVariable over Data maps), dataToInt string parsing, array/struct read-back',
+        'pmlarms: NOT covered - precedence/associativity (bison grammar), variable storage (getVariable/setVariable over Data maps) except the integer guards on an array index, dataToInt string parsing, array/struct read-back',
+        'pmlarms (O_index): the declared size is what strTo<int>(..["size"].atom) returns (any int); the element access itself (Data::operator[]) is not under contract - only that it is reached with 0 <= index < size',
     ]
     try:
         ext = pml_extract.extract(common.REPO)
@@ -221,6 +293,9 @@ def run(tier):
         part.functions.append({'function': 'PromelaDataModel::evaluateExpr arm %s' % a['token'], 'file': '%s:%d' % (pml_extract.SRC, a['line']),
                                'route': 'R3 extract -> arm_%s in work/pml/pml_extracted.c' % a['token'],
                                'grammar_arities': a['grammar_arities'], 'dropped': a['dropped']})
+    for g in ext.get('index_guards', []):
+        part.functions.append({'function': 'PromelaDataModel::%s, case PML_VAR_ARRAY (guards on the array index)' % g['function'], 'file': '%s:%d' % (pml_extract.SRC, g['line']),
+                               'route': 'R3 extract (slice) -> idx_%s in work/pml/pml_extracted.c' % g['function'], 'dropped': g['dropped']})
     part.extra['arms_not_extracted'] = ext['not_extracted']
     part.extra['operator_tokens_without_arm'] = ext['missing']
     part.extra['arms_whose_operand_order_is_left_to_the_compiler'] = [a['token'] for a in ext['arms'] if a.get('operand_order_left_to_compiler')]
@@ -234,10 +309,18 @@ def run(tier):
                                 cbmc_flags=['--drop-unused-functions'] + (['--z3'] if tok in ('PML_TIMES', 'PML_DIVIDE', 'PML_MODULO') else []),
                                 timeout=900, mem_gb=8,
                                 meta={'token': tok, 'arity': n, 'back_end': 'z3 4.8.12 (SMT2)' if tok in ('PML_TIMES', 'PML_DIVIDE', 'PML_MODULO') else 'MiniSat'}))
+    jobs.append(cbmcrun.Job('h_data_subscript', [hpath], 'h_data_subscript', wd, enforce='data_subscript', apply_loop_contracts=True, includes=[HERE, wd],
+                            defines={'PML_EXTRACTED': '"%s"' % cpath}, cbmc_flags=['--drop-unused-functions'], timeout=900, mem_gb=8,
+                            meta={'token': 'ELEM', 'arity': 2, 'back_end': 'MiniSat; loop contracts (no unwinding)'}))
+    part.functions.append({'function': 'Data::operator[](const size_t index)', 'file': '%s:%d-%d' % ((pml_extract.DATA_H,) + tuple(ext['data_subscript_lines'])),
+                           'route': 'R3 extract -> data_subscript in work/pml/pml_extracted.c; std::list abstracted to its length, iterator to its position; two loop contracts',
+                           'dropped': 'the payload of the list elements'})
     with ThreadPoolExecutor(common.NCPU) as ex:
         results = list(ex.map(cbmcrun.verify, jobs))
     for r in results:
         part.add_job(r)
+        if r['status'] == 'ok' and r['meta'].get('token') == 'ELEM' and not any(k.startswith('loop_') for k in (r.get('classes') or {})):
+            part.errors.append('h_data_subscript: no loop-contract obligations generated (loop contracts silently dropped)')
         if r['status'] != 'ok':
             continue
         tok, n = r['meta'].get('token'), r['meta'].get('arity')
@@ -253,6 +336,33 @@ def run(tier):
                 part.violations.append({'obligation': 'O_present %s' % mt, 'replay': path, 'reproduced': ok, 'what': f['description'] + ' | ' + text, 'token': mt, 'kind': 'present'})
                 continue
             v1, v2 = witness(f.get('trace'))
+            if tok == 'ELEM':
+                n_ = idx_ = None
+                for st in f.get('trace') or []:
+                    if st.get('lhs') == 'wit_n' and st.get('binary'):
+                        n_ = int(st['binary'], 2)
+                    if st.get('lhs') == 'wit_idx' and st.get('binary'):
+                        idx_ = int(st['binary'], 2)
+                # reachable through the promela datamodel with a declared but uninitialised array (its value list is empty): read arr[index]
+                ridx = min(idx_ if idx_ is not None else 1, 6)
+                ok, text = native_replay_index('getVariable', ridx, ridx + 1, wd, uninitialised=True)
+                payload = {'property': 'C17', 'engine': 'pmlarms', 'obligation': f['property'], 'description': f['description'], 'token': tok, 'arity': 2,
+                           'list_length': n_, 'index': idx_, 'v1': ridx, 'v2': ridx + 1, 'native_replay_output': text}
+                path = common.write_replay('C17', '%s_%s' % (r['name'], f['property']), payload)
+                part.violations.append({'obligation': '%s %s' % (r['name'], f['property']), 'replay': path, 'reproduced': ok,
+                                        'what': '%s | list length %s, index %s | %s' % (f['description'], n_, idx_, text), 'token': tok, 'arity': 2, 'kind': 'elem', 'v1': ridx, 'v2': ridx + 1})
+                continue
+            if tok and tok.startswith('INDEX_'):
+                fn = tok[len('INDEX_'):]
+                if v1 is None:
+                    v1, v2 = -1, 3
+                ok, text = native_replay_index(fn, v1, v2, wd)
+                payload = {'property': 'C17', 'engine': 'pmlarms', 'obligation': f['property'], 'description': f['description'],
+                           'token': tok, 'arity': 2, 'v1': v1, 'v2': v2, 'native_replay_output': text}
+                path = common.write_replay('C17', '%s_%s' % (r['name'], f['property']), payload)
+                part.violations.append({'obligation': '%s %s' % (r['name'], f['property']), 'replay': path, 'reproduced': ok,
+                                        'what': '%s | %s' % (f['description'], text), 'token': tok, 'arity': 2, 'kind': 'index', 'v1': v1, 'v2': v2})
+                continue
             if v1 is None:
                 v1, v2 = 0, 0
                 ok, text = False, 'no witness operands in the trace'
@@ -269,7 +379,12 @@ def run(tier):
 
 def replay(path):
     d = json.load(open(path))
-    ok, text = native_replay(d['token'], d['arity'], d['v1'], d['v2'], os.path.join(common.WORK, 'pml'))
+    if d['token'] == 'ELEM':
+        ok, text = native_replay_index('getVariable', d['v1'], d['v2'], os.path.join(common.WORK, 'pml'), uninitialised=True)
+    elif d['token'].startswith('INDEX_'):
+        ok, text = native_replay_index(d['token'][len('INDEX_'):], d['v1'], d['v2'], os.path.join(common.WORK, 'pml'))
+    else:
+        ok, text = native_replay(d['token'], d['arity'], d['v1'], d['v2'], os.path.join(common.WORK, 'pml'))
     print(text)
     return 1 if ok else 0
 
